@@ -688,6 +688,11 @@ func runCheck(c *Check, tier, replay string, keep bool, shardsOverride int) int 
 	fmt.Printf("merged: evaluations=%d states=%d transitions=%d outcomes=%d violations=%d counters=%v caps=%v\n", merged.Evaluations, merged.States, merged.Transitions, merged.Outcomes, merged.NViolations, merged.Counters, merged.Caps)
 	for _, rq := range merged.Required {
 		if merged.Counters[rq] == 0 {
+			if len(viol) > 0 {
+				// a run that was cut short by what it found: the violations speak for themselves (each is confirmed by replay below)
+				fmt.Printf("note: coverage counter %q is zero in a run that found violations\n", rq)
+				continue
+			}
 			fmt.Fprintf(os.Stderr, "HARNESS-ERROR property=%s: vacuous run, coverage counter %q is zero\n", c.ID, rq)
 			return 2
 		}
